@@ -1,8 +1,8 @@
-(** Correspondence evaluator for C11: run the loader/build-order model on the
-    workspace the harness built and compare with what the real
+(** Correspondence evaluator for C11: run the name resolution and the
+    loader/build-order model on the BUILD files the harness wrote and compare with what the real
     [caco3.Builder] reported. *)
 From Coq Require Import List String Bool Arith.
-From Verif Require Import Caco.Load.
+From Verif Require Import Caco.Load Caco.LoadNames.
 Import ListNotations.
 Local Open Scope string_scope.
 
@@ -34,7 +34,7 @@ Inductive cobs :=
 
 (** One workspace, built for several target lists (each in a fresh copy). *)
 Record ccase := mkCase {
-  c_fs : bfiles;
+  c_fs : raw_files;          (* the BUILD files as written *)
   c_roots : list name;
   c_files : list name;       (* regular files under src/ *)
   c_dirs : list name;        (* directories under src/ ("" is src/ itself) *)
@@ -43,7 +43,7 @@ Record ccase := mkCase {
 }.
 
 Definition model_of (c : ccase) (targets : list name) : cres :=
-  c11_run (c_fs c) (c_roots c) (kind_of (c_files c) (c_dirs c)) targets.
+  c11_run_raw (c_fs c) (c_roots c) (kind_of (c_files c) (c_dirs c)) targets.
 
 Definition check_run (c : ccase) (r : list name * cobs) : bool :=
   match model_of c (fst r), snd r with
